@@ -1084,8 +1084,9 @@ class QuantityMeta(ClassWithDefinitionMeta):
         if isinstance(define_as, Term):
             unit._definition = define_as
             if equiv is None and cls._ref_unit is not None:
-                # scale relative to the reference unit
-                equiv = define_as.normalized().num_elem or ONE
+                # scale relative to the reference unit (never a plain int:
+                # the ratio of two ints would be a float)
+                equiv = ONE * (define_as.normalized().num_elem or ONE)
             unit._equiv = equiv
         else:
             assert define_as is None, "Unknown type of Unit definition."
